@@ -47,7 +47,17 @@ class Spec(unit.UnitSpec):
     pid = "C29"
     modules = ["MmtkModel.Props.C29"]
     theorems = ["Mmtk.Map32.freeNoLock_avail", "Mmtk.Map32.allocate_avail", "Mmtk.Map32.freeNoLock_unlinks",
-                "Mmtk.Map32.freeNoLock_clears_descriptors", "Mmtk.Map32.allocate_sets_descriptors"]
+                "Mmtk.Map32.freeNoLock_clears_descriptors", "Mmtk.Map32.allocate_sets_descriptors",
+                "Mmtk.Map32.inv_init", "Mmtk.Map32.inv_allocate", "Mmtk.Map32.inv_free", "Mmtk.Map32.inv_freeAll",
+                "Mmtk.Map32.freeAll_spec", "Mmtk.Map32.inv_step", "Mmtk.Map32.step_isSome", "Mmtk.Map32.history_inv",
+                "Mmtk.Map32.history_no_panic", "Mmtk.Map32.history_inv_init", "Mmtk.Map32.history_regions_disjoint",
+                "Mmtk.Map32.history_descriptor_exact", "Mmtk.Map32.history_links_exact",
+                "Mmtk.Map32.history_avail_exact", "Mmtk.Map32.history_walk", "Mmtk.Map32.allocate_ok",
+                "Mmtk.Map32.alloc_spec", "Mmtk.Map32.alloc_none_iff", "Mmtk.Map32.freeRun_spec",
+                "Mmtk.Map32.freeRun_eq_strong", "Mmtk.Map32.finalize_fl", "Mmtk.Map32.alloc_full", "Mmtk.Map32.freeRun_full",
+                "Mmtk.Map32.freeAll_spec_gen", "Mmtk.Map32.invX_init", "Mmtk.Map32.invX_allocate",
+                "Mmtk.Map32.invX_free", "Mmtk.Map32.invX_freeAll", "Mmtk.Map32.history_invX",
+                "Mmtk.Map32.alloc_fails_exact", "Mmtk.Map32.history_alloc_fails_exact"]
     component = "map32"
     relation = "Mmtk.Map32.* ≙ util::heap::layout::map32::Map32 (+ run-level behaviour of util::freelist) via verif::layout::map32"
     assumptions = ["PARTIAL: only per-operation lemmas are proved in Lean (descriptor writes, link splice, avail arithmetic); the four "
